@@ -102,7 +102,7 @@ class IndexInterp:
             if isinstance(e.op, ast.UAdd):
                 return v
             if isinstance(e.op, ast.Not):
-                return not v
+                return not self.truth(v)
         if isinstance(e, ast.BinOp):
             a, b = self.ev(e.left), self.ev(e.right)
             num = lambda x: isinstance(x, (int, float)) and not isinstance(x, str)
@@ -131,6 +131,17 @@ class IndexInterp:
             left = self.ev(e.left)
             for op, r in zip(e.ops, e.comparators):
                 right = self.ev(r)
+                if (_is_rat(left) or _is_rat(right)) and isinstance(op, (ast.Eq, ast.NotEq)) and all(_is_rat(x) or isinstance(x, (int, float)) for x in (left, right)):
+                    # exact rationals: a symbolic weight is generic (equal to nothing but itself); Rat(0) == 0
+                    from fractions import Fraction
+                    conv = lambda x: Fraction(repr(x)) if isinstance(x, float) else x
+                    same = (conv(left) - conv(right)).is_zero() if _is_rat(conv(left) - conv(right)) else conv(left) == conv(right)
+                    if same != isinstance(op, ast.Eq):
+                        return False
+                    left = right
+                    continue
+                if (_is_rat(left) or _is_rat(right)) and isinstance(op, (ast.Lt, ast.LtE, ast.Gt, ast.GtE)):
+                    raise AnalysisError("ordering of a symbolic weight in `%s`" % src(e))
                 try:
                     ok = {ast.Eq: lambda: left == right, ast.NotEq: lambda: left != right, ast.Lt: lambda: left < right, ast.LtE: lambda: left <= right,
                           ast.Gt: lambda: left > right, ast.GtE: lambda: left >= right, ast.In: lambda: left in right, ast.NotIn: lambda: left not in right,
@@ -146,17 +157,17 @@ class IndexInterp:
                 v = True
                 for x in e.values:
                     v = self.ev(x)
-                    if not v:
+                    if not self.truth(v):
                         return v
                 return v
             v = False
             for x in e.values:
                 v = self.ev(x)
-                if v:
+                if self.truth(v):
                     return v
             return v
         if isinstance(e, ast.IfExp):
-            return self.ev(e.body) if self.ev(e.test) else self.ev(e.orelse)
+            return self.ev(e.body) if self.truth(self.ev(e.test)) else self.ev(e.orelse)
         if isinstance(e, (ast.ListComp, ast.GeneratorExp)):
             out = []
             self._comp(e.generators, 0, lambda: out.append(self.ev(e.elt)))
@@ -233,6 +244,13 @@ class IndexInterp:
             raise AnalysisError("array arithmetic `%s`" % src(e))
         return b.copy_with(lambda k, v: (k, f(conv(a), conv(v))))
 
+    def truth(self, v):
+        if _is_rat(v):
+            return not v.is_zero()
+        if isinstance(v, Matrix) or is_token(v):
+            raise AnalysisError("truth value of the symbolic `%r`" % (v,))
+        return bool(v)
+
     def _comp(self, gens, k, emit):
         if k == len(gens):
             emit()
@@ -240,7 +258,7 @@ class IndexInterp:
         g = gens[k]
         for v in self._iterate(self.ev(g.iter), g.iter):
             self._bind(g.target, v)
-            if all(self.ev(c) for c in g.ifs):
+            if all(self.truth(self.ev(c)) for c in g.ifs):
                 self._comp(gens, k + 1, emit)
 
     def _iterate(self, v, node):
@@ -393,7 +411,7 @@ class IndexInterp:
                 if not broke:
                     self._block(s.orelse)
             elif isinstance(s, ast.While):
-                while self.ev(s.test):
+                while self.truth(self.ev(s.test)):
                     try:
                         self._block(s.body)
                     except _Continue:
@@ -401,7 +419,7 @@ class IndexInterp:
                     except _Break:
                         break
             elif isinstance(s, ast.If):
-                self._block(s.body if self.ev(s.test) else s.orelse)
+                self._block(s.body if self.truth(self.ev(s.test)) else s.orelse)
             elif isinstance(s, ast.Return):
                 raise _Return(self.ev(s.value) if s.value is not None else None)
             elif isinstance(s, ast.Continue):
